@@ -57,8 +57,9 @@ func c14Replay(args []string) *Result {
 			return fmt.Errorf("bad emission: %v", err)
 		}
 		name := string(tapeBytes(cs.Name))
-		needQuote := name == "" || strings.HasPrefix(name, "/") || strings.Contains(name, " ")
-		if needQuote && strings.Contains(name, `\`) {
+		mustQuote := name == "" || strings.HasPrefix(name, "/") || strings.Contains(name, " ")
+		canQuote := !strings.Contains(name, "\\")
+		if mustQuote && !canQuote {
 			res.count("skipped-quoted-backslash")
 			return nil
 		}
@@ -70,79 +71,18 @@ func c14Replay(args []string) *Result {
 				cs.Cls, cs.Outcome = "accepted", "notexist"
 			}
 		}
-		text := "INCLUDE " + name + "\n"
-		if needQuote {
-			text = `INCLUDE "` + name + `"` + "\n"
-		}
-		replay := map[string]any{"kind": "c14", "case": cs, "name": name, "root": text}
-		var ops []string
-		core.VerifFileAccessObserver = func(op, path string) { ops = append(ops, op+" "+path) }
-		var je *jerr.JApiError
-		panicked := ""
-		func() {
-			defer func() {
-				if r := recover(); r != nil {
-					panicked = fmt.Sprint(r)
-				}
-			}()
-			c := core.NewJApiCore(fs.NewFile(filepath.Join(proj, "root.jst"), text))
-			je = c.VerifScanOnly()
-		}()
-		core.VerifFileAccessObserver = nil
 		res.count("spec-" + cs.Cls + cs.Outcome)
+		distinct[cs.Cls+cs.Outcome+fmt.Sprint(len(cs.Path))] = struct{}{}
 		if res.Cases%1500 == 5 {
 			res.sample(map[string]any{"name": name, "class": cs.Cls, "outcome": cs.Outcome})
 		}
-		distinct[cs.Cls+cs.Outcome+fmt.Sprint(len(cs.Path))] = struct{}{}
-		if panicked != "" {
-			res.mismatch("c14:panic", "panic: "+panicked, replay)
-			return nil
+		// the parameter is written bare and quoted (both where possible): the spelling must not matter
+		if !mustQuote {
+			c14One(res, proj, &cs, name, "INCLUDE "+name+"\n")
 		}
-		for _, o := range ops {
-			pth := o[strings.IndexByte(o, ' ')+1:]
-			rel, err := filepath.Rel(proj, pth)
-			if err != nil || rel == ".." || strings.HasPrefix(rel, "../") {
-				res.mismatch("c14:outside-project", fmt.Sprintf("INCLUDE %q hands %q to the OS, outside the project directory", name, pth), replay)
-				return nil
-			}
+		if canQuote && !(selftest && !mustQuote) {
+			c14One(res, proj, &cs, name, "INCLUDE \""+name+"\"\n")
 		}
-		if cs.Cls != "accepted" {
-			if len(ops) != 0 {
-				res.mismatch("c14:refused-name-consulted-fs", fmt.Sprintf("INCLUDE %q must be refused (%s) before the file system is consulted; code did %v", name, cs.Cls, ops), replay)
-			} else if je == nil || classifyIncErr(je.Msg) != "badname" {
-				msg := "accepted"
-				if je != nil {
-					msg = firstLine(je.Msg)
-				}
-				res.mismatch("c14:refused-name-not-refused", fmt.Sprintf("INCLUDE %q must be refused (%s); code: %s", name, cs.Cls, msg), replay)
-			} else if je.Line != 1 {
-				res.mismatch("c14:error-not-at-include", fmt.Sprintf("INCLUDE %q: error on line %d", name, je.Line), replay)
-			}
-			return nil
-		}
-		// accepted names: the path consulted is dir(includer)/clean(name)
-		segs := make([]string, 0, len(cs.Path))
-		for _, s := range cs.Path {
-			segs = append(segs, string(tapeBytes(s)))
-		}
-		want := filepath.Join(append([]string{proj}, segs...)...)
-		if len(ops) == 0 || ops[0] != "stat "+want {
-			res.mismatch("c14:accepted-name-wrong-path", fmt.Sprintf("INCLUDE %q: expected stat of %q, code did %v (%v)", name, want, ops, je), replay)
-			return nil
-		}
-		got := "ok"
-		if je != nil {
-			got = classifyIncErr(je.Msg)
-		}
-		if cs.Outcome == "notexist" && got == "param" {
-			got = "notexist" // a path component that is a file: "not a directory", also an error at the INCLUDE
-		}
-		if got != cs.Outcome {
-			res.mismatch("c14:outcome-"+cs.Outcome, fmt.Sprintf("INCLUDE %q: spec %s, code %s", name, cs.Outcome, got), replay)
-		} else if je != nil && je.Line != 1 {
-			res.mismatch("c14:error-not-at-include", fmt.Sprintf("INCLUDE %q: error on line %d", name, je.Line), replay)
-		}
-
 		if selftest && res.Cases >= 1000 {
 			return errStop
 		}
@@ -153,4 +93,71 @@ func c14Replay(args []string) *Result {
 	}
 	res.Nontrivial = len(distinct)
 	return res
+}
+
+func c14One(res *Result, proj string, cs *c14Case, name, text string) {
+	replay := map[string]any{"kind": "c14", "case": cs, "name": name, "root": text}
+	var ops []string
+	core.VerifFileAccessObserver = func(op, path string) { ops = append(ops, op+" "+path) }
+	var je *jerr.JApiError
+	panicked := ""
+	func() {
+		defer func() {
+			if r := recover(); r != nil {
+				panicked = fmt.Sprint(r)
+			}
+		}()
+		c := core.NewJApiCore(fs.NewFile(filepath.Join(proj, "root.jst"), text))
+		je = c.VerifScanOnly()
+	}()
+	core.VerifFileAccessObserver = nil
+	res.count("renderings")
+	if panicked != "" {
+		res.mismatch("c14:panic", "panic: "+panicked, replay)
+		return
+	}
+	for _, o := range ops {
+		pth := o[strings.IndexByte(o, ' ')+1:]
+		rel, err := filepath.Rel(proj, pth)
+		if err != nil || rel == ".." || strings.HasPrefix(rel, "../") {
+			res.mismatch("c14:outside-project", fmt.Sprintf("%q hands %q to the OS, outside the project directory", strings.TrimSpace(text), pth), replay)
+			return
+		}
+	}
+	if cs.Cls != "accepted" {
+		if len(ops) != 0 {
+			res.mismatch("c14:refused-name-consulted-fs", fmt.Sprintf("%q must be refused (%s) before the file system is consulted; code did %v", strings.TrimSpace(text), cs.Cls, ops), replay)
+		} else if je == nil || classifyIncErr(je.Msg) != "badname" {
+			msg := "accepted"
+			if je != nil {
+				msg = firstLine(je.Msg)
+			}
+			res.mismatch("c14:refused-name-not-refused", fmt.Sprintf("%q must be refused (%s); code: %s", strings.TrimSpace(text), cs.Cls, msg), replay)
+		} else if je.Line != 1 {
+			res.mismatch("c14:error-not-at-include", fmt.Sprintf("%q: error on line %d", strings.TrimSpace(text), je.Line), replay)
+		}
+		return
+	}
+	// accepted names: the path consulted is dir(includer)/clean(name)
+	segs := make([]string, 0, len(cs.Path))
+	for _, s := range cs.Path {
+		segs = append(segs, string(tapeBytes(s)))
+	}
+	want := filepath.Join(append([]string{proj}, segs...)...)
+	if len(ops) == 0 || ops[0] != "stat "+want {
+		res.mismatch("c14:accepted-name-wrong-path", fmt.Sprintf("%q: expected stat of %q, code did %v (%v)", strings.TrimSpace(text), want, ops, je), replay)
+		return
+	}
+	got := "ok"
+	if je != nil {
+		got = classifyIncErr(je.Msg)
+	}
+	if cs.Outcome == "notexist" && got == "param" {
+		got = "notexist" // a path component that is a file: "not a directory", also an error at the INCLUDE
+	}
+	if got != cs.Outcome {
+		res.mismatch("c14:outcome-"+cs.Outcome, fmt.Sprintf("%q: spec %s, code %s", strings.TrimSpace(text), cs.Outcome, got), replay)
+	} else if je != nil && je.Line != 1 {
+		res.mismatch("c14:error-not-at-include", fmt.Sprintf("%q: error on line %d", strings.TrimSpace(text), je.Line), replay)
+	}
 }
